@@ -29,7 +29,7 @@ CONSTANT Dup    \* TRUE: also try to register an already registered target again
 
 Src3 == IF LinksTy(3) THEN 3 ELSE 2
 ScenarioDone == Ready /\ (~LinksTy(1) \/ ScenarioPos >= 8 \/ (ScenarioPos = 3 /\ ~LinksTy(Src3)))
-FinishM == ScenarioDone /\ ~fin /\ fin' = TRUE /\ UNCHANGED <<slots, net, reg, taint, procs, hist, nw>>
+FinishM == ScenarioDone /\ ~fin /\ fin' = TRUE /\ UNCHANGED <<slots, net, reg, taint, procs, gor, hist, nw>>
 
 MNext ==
   \/ FinishM
